@@ -78,6 +78,38 @@ Fixpoint read_all (n : Z) (out : list Z) (sock : list (list Z)) {struct sock}
   end.
 Definition stake (n : Z) (sock : list (list Z)) := read_all n [] sock.
 
+(* the same loop with socket timeouts as oracle input and the need-rekey test:
+     except socket.timeout: got_timeout = True
+     if got_timeout: ... if check_rekey and (len(out) == 0) and self.__need_rekey: raise NeedRekeyException()
+   (closed flag false, keepalive off).  A socket is a list of events. *)
+Inductive sev := SData (c : list Z) | STimeout.
+Inductive rares := RAok (x : list Z) (s : list sev) | RAeof | RArekey (s : list sev).
+Fixpoint read_all_t (n : Z) (out : list Z) (check_rekey need_rekey : bool) (sock : list sev) {struct sock}
+  : rares :=
+  if n <=? 0 then RAok out sock else
+  match sock with
+  | [] => RAeof
+  | STimeout :: rest =>
+      if check_rekey && Nat.eqb (length out) 0 && need_rekey then RArekey rest
+      else read_all_t n out check_rekey need_rekey rest
+  | SData c :: rest =>
+      match c with
+      | [] => RAeof
+      | _ => if zlen c <=? n then read_all_t (n - zlen c) (out ++ c) check_rekey need_rekey rest
+             else RAok (out ++ firstn (Z.to_nat n) c) (SData (skipn (Z.to_nat n) c) :: rest)
+      end
+  end.
+(* read_all(n, check_rekey=False) *)
+Definition ttake (n : Z) (s : list sev) : option (list Z * list sev) :=
+  match read_all_t n [] false false s with RAok x s' => Some (x, s') | _ => None end.
+(* the bytes a socket will deliver *)
+Fixpoint sdata (s : list sev) : list Z :=
+  match s with
+  | [] => []
+  | SData c :: r => c ++ sdata r
+  | STimeout :: r => sdata r
+  end.
+
 (* ---- _inc_iv_counter ------------------------------------------------------ *)
 (* int.from_bytes(iv[4:]) + 1, to_bytes(8) raises OverflowError (LibExc 2) at 2^64 *)
 Definition inc_iv (iv : list Z) : result (list Z) :=
@@ -231,10 +263,10 @@ Definition read_classic (r : pstate) (header : list Z)
       end
     else rlift (finish r m' packet_size packet EvNone)).
 
-Definition read_message (r : pstate) : reader (list Z * authev * pstate) :=
+(* everything after header = self.read_all(self.__block_size_in, check_rekey=True) *)
+Definition read_body (r : pstate) (header : list Z) : reader (list Z * authev * pstate) :=
   let bs := p_bs r in
   let msz := p_msz r in
-  rbind (rtake bs) (fun header =>
   match p_mode r with
   | Etm c k =>
       let packet_size := be_decode (firstn 4 header) in
@@ -263,7 +295,10 @@ Definition read_message (r : pstate) : reader (list Z * authev * pstate) :=
                       Classic (snd (c_dec P (snd (c_dec P c h)) rest)) k)))
   | Plain =>
       read_classic r header (fun h => (h, fun rest => (rest, Plain)))
-  end).
+  end.
+
+Definition read_message (r : pstate) : reader (list Z * authev * pstate) :=
+  rbind (rtake (p_bs r)) (read_body r).
 
 (* read messages until the source blocks or an exception is raised *)
 Fixpoint read_many (fuel : nat) (r : pstate) (s : S)
@@ -280,6 +315,33 @@ Fixpoint read_many (fuel : nat) (r : pstate) (s : S)
       end
   end.
 End Reader.
+
+(* read_message over a socket with timeouts while need_rekey may be set: the header read is the
+   only one with check_rekey=True *)
+Inductive trr :=
+  | TRekey (s : list sev)                                       (* NeedRekeyException *)
+  | TOther (x : rr (list sev) (list Z * authev * pstate)).
+Definition read_message_t (nr : bool) (r : pstate) (sock : list sev) : trr :=
+  match read_all_t (p_bs r) [] true nr sock with
+  | RArekey s' => TRekey s'
+  | RAeof => TOther Need
+  | RAok header s' => TOther (read_body (list sev) ttake r header s')
+  end.
+(* the run loop: NeedRekeyException is noted (Transport.run sends KEXINIT) and reading continues *)
+Fixpoint read_many_t (nr : bool) (fuel : nat) (r : pstate) (s : list sev)
+  : list (list Z) * list authev * Z * fin * pstate * list sev :=
+  match fuel with
+  | O => ([], [], 0, FFuel, r, s)
+  | Datatypes.S f =>
+      match read_message_t nr r s with
+      | TRekey s' =>
+          let '(ps, evs, k, fi, rf, sf) := read_many_t nr f r s' in (ps, evs, k + 1, fi, rf, sf)
+      | TOther Need => ([], [], 0, FNeed, r, s)
+      | TOther (Fail e) => ([], [], 0, FErr e, r, s)
+      | TOther (Done (p, ev, r') s') =>
+          let '(ps, evs, k, fi, rf, sf) := read_many_t nr f r' s' in (p :: ps, ev :: evs, k, fi, rf, sf)
+      end
+  end.
 
 Definition read_message_flat := read_message (list Z) ftake.
 Definition read_message_sock := read_message (list (list Z)) stake.
@@ -554,6 +616,15 @@ Definition run_recv (c : Z * bool * tcfg * list (list Z)) : list Z :=
   let '(ps, _, fi, _, _) :=
       read_many_sock toyP (Datatypes.S (length (concat sock))) (cfg_apply (init_state seq kex) cfg) sock in
   flat_map enc_list ps ++ enc_fin fi.
+
+(* C01 correspondence with socket timeouts and a pending re-key:
+   (seq, kex, cfg, need_rekey, events) -> delivered messages, [-4; rekey notices], fin *)
+Definition run_recv_t (c : Z * bool * tcfg * bool * list sev) : list Z :=
+  let '(seq, kex, cfg, nr, sock) := c in
+  let '(ps, _, k, fi, _, _) :=
+      read_many_t toyP nr (Datatypes.S (length sock + length (sdata sock)))
+                  (cfg_apply (init_state seq kex) cfg) sock in
+  flat_map enc_list ps ++ [-4; k] ++ enc_fin fi.
 
 Definition run_cteq (c : list Z * list Z) : list Z :=
   [if constant_time_bytes_eq (fst c) (snd c) then 1 else 0].
